@@ -250,3 +250,12 @@ fn c19_link_status_deadline() {
     kani::cover!(enabled);
     std::mem::forget(a);
 }
+
+pub(crate) fn mk_quiet_assoc() -> Association {
+    mk_assoc(AssociationConfig::quiet())
+}
+
+/// 0 idle, 1 pending, 2 waiting for retry
+pub(crate) fn time_sync_state(a: &Association) -> u8 {
+    code_of(&a.auto_tasks.time_sync)
+}
